@@ -34,7 +34,11 @@ func main() {
 	case "gen":
 		runGen(*out, *repo)
 	case "aol":
-		runAol(*seed, *n, *out, *replay, *blocks)
+		runChainProfile(profileSpec{"aol", genAolHistory, func() []Monitor {
+			return []Monitor{&aolRecordMonitor{}, &aolAuthMonitor{}, &aolCounterMonitor{}}
+		}}, *seed, *n, *out, *replay, *blocks)
+	case "did":
+		runChainProfile(profileSpec{"did", genDidHistory, func() []Monitor { return []Monitor{newDidMonitor()} }}, *seed, *n, *out, *replay, *blocks)
 	case "compkey":
 		runCompkey(*seed, *n, *out, *replay)
 	default:
